@@ -49,31 +49,32 @@ Proof. destruct e; cbn; tauto. Qed.
     "the log only grows". *)
 Record lpred := LPred {
   lp_ev : event -> Prop;
-  lp_log : list event -> Prop;
-  lp_cons : forall e l, lp_ev e -> lp_log l -> lp_log (e :: l);
+  lp_log : N -> list event -> Prop;      (* sees [st_exec] and the log *)
+  lp_cons : forall e n l, lp_ev e -> lp_log n l -> lp_log n (e :: l);
   lp_benign : forall e, benign e -> lp_ev e;
 }.
 
 Definition flagsA (K : conf) : lpred :=
-  LPred (ev_ok K) (log_ok K) (fun e l He Hl => Forall_cons _ e l He Hl) (benign_ok K).
+  LPred (ev_ok K) (fun _ => log_ok K) (fun e _ l He Hl => Forall_cons _ e l He Hl) (benign_ok K).
 
 (** the invariant threaded through every definition: flags equal to [t], log fine *)
 Definition inv (A : lpred) (t : bool * bool * bool * bool) (m : machine) : Prop :=
-  ctl m = t /\ lp_log A (log m).
+  ctl m = t /\ lp_log A (st_exec m) (log m).
 
-Definition cl (m : machine) := (ctl m, log m).
+Definition cl (m : machine) := (ctl m, st_exec m, log m).
 
 Lemma inv_cl A t m m' : cl m' = cl m -> inv A t m -> inv A t m'.
 Proof.
-  intros E [H1 H2]. pose proof (f_equal fst E) as E1. pose proof (f_equal snd E) as E2.
-  unfold cl in E1, E2. cbn [fst snd] in E1, E2. split; congruence.
+  intros E [H1 H2]. pose proof (f_equal (fun x => x.1.1) E) as E1.
+  pose proof (f_equal (fun x => x.1.2) E) as E2. pose proof (f_equal snd E) as E3.
+  unfold cl in E1, E2, E3. cbn [fst snd] in E1, E2, E3. split; congruence.
 Qed.
 
 Lemma inv_ctl A t m : inv A t m -> ctl m = t.
 Proof. intros [H _]; exact H. Qed.
-Lemma inv_log A t m : inv A t m -> lp_log A (log m).
+Lemma inv_log A t m : inv A t m -> lp_log A (st_exec m) (log m).
 Proof. intros [_ H]; exact H. Qed.
-Lemma inv_self A m : lp_log A (log m) ->
+Lemma inv_self A m : lp_log A (st_exec m) (log m) ->
   inv A (st_collecting m, st_finalizing m, st_dropping m, panicking m) m.
 Proof. split; auto. Qed.
 
@@ -125,7 +126,7 @@ Proof. apply inv_emit_benign. exact I. Qed.
 (** ** Results of activations: the flags are [t] unless the activation ran out of fuel (then
     the model state is meaningless, only the log predicate is kept) *)
 Definition res (A : lpred) (t : bool * bool * bool * bool) (x : machine * outcome) : Prop :=
-  lp_log A (log x.1) /\ (x.2 = OFuel \/ ctl x.1 = t).
+  lp_log A (st_exec x.1) (log x.1) /\ (x.2 = OFuel \/ ctl x.1 = t).
 
 Lemma res_intro A t m r : inv A t m -> res A t (m, r).
 Proof. intros [H1 H2]. split; [exact H2 | right; exact H1]. Qed.
